@@ -11,7 +11,7 @@ conversion and compared with the one exact answer; an exception where the conver
 violation; linearity on dyadic combinations; Kraus conversion on the CP catalogue."""
 import numpy as np
 
-from harness import core, coords
+from harness import core, coords, qobjs
 
 
 def cmat(m):
@@ -224,8 +224,101 @@ def truncate_hs_cases(chk):
             chk.violation("value:truncate_hs", "truncate_hs with imaginary part %g and threshold %r behaves unexpectedly" % (imag, eps_im), dict(imag=imag))
 
 
+def cmat_of(M):
+    """complex matrix from the specification's Gaussian rationals <<<<re_n, re_d>>, <<im_n, im_d>>>>."""
+    return np.array([[coords.rat(e[0]) + 1j * coords.rat(e[1]) for e in row] for row in M], dtype=np.complex128)
+
+
+def basis_catalogue(chk):
+    """The library's catalogue of matrix bases against the exact bases of QBasis (MC_Basis) and against the defining
+    relations: predicates, expansion / reconstruction, conversion between bases."""
+    from quara.objects import matrix_basis as mb
+    r = chk.tlc("mc/MC_Basis", "mc/MC_Basis.cfg", workers=4, label="MC_Basis")
+    exact = {tuple(c["sys"]): ([cmat_of(M) for M in c["basis"]], np.array(c["nu"], dtype=float)) for c in r.emitted}
+    rs = np.random.RandomState(11)
+
+    def bad(clause, msg, **ctx):
+        chk.violation("basis:%s" % clause, msg, dict(clause=clause, **ctx))
+
+    def dense(b):
+        return [np.asarray(m.toarray() if hasattr(m, "toarray") else m, dtype=np.complex128) for m in b]
+    # (a) the typical bases the objects are expressed in: entry by entry H_a / sqrt(nu_a), and the unnormalised ones H_a
+    lib = {(2,): (mb.get_pauli_basis(1), mb.get_normalized_pauli_basis(1)), (2, 2): (mb.get_pauli_basis(2), mb.get_normalized_pauli_basis(2)),
+           (3,): (None, mb.get_normalized_gell_mann_basis())}
+    for sys_, (raw, nrm) in lib.items():
+        H, nu = exact[sys_]
+        chk.count(len(H), ("basis", sys_))
+        if raw is not None and (len(raw) != len(H) or any(not np.allclose(a, h, atol=1e-14) for a, h in zip(dense(raw), H))):
+            bad("pauli:%s" % (sys_,), "get_pauli_basis differs from the Kronecker products of I, X, Y, Z in order", sys=list(sys_))
+        if len(nrm) != len(H) or any(not np.allclose(a, h / np.sqrt(n), atol=1e-14) for a, h, n in zip(dense(nrm), H, nu)):
+            bad("normalised:%s" % (sys_,), "the normalised basis differs from H_a / sqrt(nu_a)", sys=list(sys_))
+    for sys_ in ((2, 3), (3, 2)):
+        H, nu = exact[sys_]
+        c = qobjs.csys_mixed(sys_)
+        if any(not np.allclose(a, h / np.sqrt(n), atol=1e-13) for a, h, n in zip(dense(c.basis()), H, nu)):
+            bad("composite:%s" % (sys_,), "basis of the composite system differs from the Kronecker products of the factors' bases", sys=list(sys_))
+    # (b) every typical basis: the library's predicates against the definitions, expansion and reconstruction
+    cat = {"comp_row2": mb.get_comp_basis(2), "comp_col3": mb.get_comp_basis(3, mode="column_major"), "comp_row4": mb.get_comp_basis(4, mode="row_major"),
+           "pauli1": mb.get_pauli_basis(1), "npauli2": mb.get_normalized_pauli_basis(2), "hermitian2": mb.get_hermitian_basis(2), "hermitian3": mb.get_hermitian_basis(3),
+           "nhermitian3": mb.get_normalized_hermitian_basis(3), "nhermitian4": mb.get_normalized_hermitian_basis(4), "gellmann": mb.get_gell_mann_basis(),
+           "ngellmann": mb.get_normalized_gell_mann_basis(), "ggm_d3": mb.get_generalized_gell_mann_basis(n_qubit=1, dim=3), "nggm_d2n2": mb.get_normalized_generalized_gell_mann_basis(n_qubit=2, dim=2),
+           "nggm_d3": mb.get_normalized_generalized_gell_mann_basis(n_qubit=1, dim=3), "nggm_d4": mb.get_normalized_generalized_gell_mann_basis(n_qubit=1, dim=4)}
+    for name, b in cat.items():
+        ms = dense(b)
+        d = ms[0].shape[0]
+        chk.count(1, ("basis_catalogue", name))
+        G = np.array([[np.trace(x.conj().T @ y) for y in ms] for x in ms])
+        want = dict(orthogonal=bool(np.allclose(G - np.diag(np.diag(G)), 0, atol=1e-12)), normal=bool(np.allclose(np.diag(G), 1, atol=1e-12)),
+                    hermitian=all(np.allclose(x, x.conj().T, atol=1e-14) for x in ms),
+                    zeroth=bool(np.allclose(ms[0] * ms[0][0, 0].conj(), np.eye(d) * abs(ms[0][0, 0]) ** 2, atol=1e-14) and abs(ms[0][0, 0]) > 0),
+                    traceless=all(abs(np.trace(x)) < 1e-13 for x in ms[1:]))
+        got = dict(orthogonal=bool(b.is_orthogonal()), normal=bool(b.is_normal()), hermitian=bool(b.is_hermitian()), zeroth=bool(b.is_0thpropI()), traceless=bool(b.is_trace_less()))
+        for k in want:
+            if got[k] != want[k]:
+                bad("predicate:%s:%s" % (k, name), "%s: is_%s()=%s, by definition %s" % (name, k, got[k], want[k]), basis=name)
+        if len(ms) != d * d or np.linalg.matrix_rank(np.array([m.ravel() for m in ms])) != d * d or b.dim != d:
+            bad("complete:%s" % name, "%s is not a basis of the %d x %d matrices (or reports dim %s)" % (name, d, d, b.dim), basis=name)
+        # the normalised families are orthonormal and Hermitian; Pauli / Gell-Mann families also start with a multiple of the
+        # identity and are traceless otherwise (the elementary Hermitian basis E_ii, E_ij + E_ji, ... is not)
+        need = ("orthogonal", "normal", "hermitian") + (() if name.startswith("nhermitian") else ("zeroth", "traceless"))
+        if name.startswith("n") and not all(want[k] for k in need):
+            bad("normalised_family:%s" % name, "%s lacks a defining property of its family: %s" % (name, {k: want[k] for k in need}), basis=name)
+        if want["orthogonal"] and want["normal"]:
+            X = rs.randn(d, d) + 1j * rs.randn(d, d)
+            Hm = X + X.conj().T
+            try:
+                cf = mb.calc_matrix_expansion_coefficient(X, b)
+                if not np.allclose(cf, [np.trace(m.conj().T @ X) for m in ms], atol=1e-12) or not np.allclose(mb.calc_mat_from_coefficient_basis(cf, b), X, atol=1e-12):
+                    bad("expansion:%s" % name, "expansion coefficients / reconstruction of a generic matrix in %s" % name, basis=name)
+                if want["hermitian"]:
+                    ch = mb.calc_hermitian_matrix_expansion_coefficient_hermitian_basis(Hm, b)
+                    if np.iscomplexobj(ch) or not np.allclose(mb.calc_mat_from_coefficient_basis(np.asarray(ch), b), Hm, atol=1e-12):
+                        bad("expansion_hermitian:%s" % name, "real coefficients of a Hermitian matrix in %s do not reconstruct it" % name, basis=name)
+            except Exception as e:
+                bad("expansion:exception:%s" % name, "%r" % e, basis=name)
+    # (c) conversion between any two orthonormal bases of one dimension denotes the same operator
+    groups = {}
+    for name, b in cat.items():
+        if b.is_orthogonal() and b.is_normal():
+            groups.setdefault(b.dim, []).append((name, b))
+    for d, lst in groups.items():
+        for (n1, b1) in lst:
+            for (n2, b2) in lst:
+                v = rs.randn(d * d) + (0 if b1.is_hermitian() and b2.is_hermitian() else 1j * rs.randn(d * d))
+                try:
+                    w = mb.convert_vec(v, b1, b2)
+                    X1 = sum(c_ * m for c_, m in zip(v, dense(b1)))
+                    X2 = sum(c_ * m for c_, m in zip(np.asarray(w), dense(b2)))
+                    chk.count(1)
+                    if not np.allclose(X1, X2, atol=1e-11):
+                        bad("convert_vec:%s->%s" % (n1, n2), "convert_vec from %s to %s changes the operator (max dev %.3g)" % (n1, n2, float(np.max(np.abs(X1 - X2)))), frm=n1, to=n2)
+                except Exception as e:
+                    bad("convert_vec:exception:%s->%s" % (n1, n2), "%r" % e, frm=n1, to=n2)
+
+
 def run(chk):
     t = chk.tier
+    basis_catalogue(chk)
     r = chk.tlc("mc/MC_C02", "mc/MC_C02_%s.cfg" % t, workers=16, label="MC_C02 " + t, timeout=7000)
     emitted = list(r.emitted)
     if t == "quick":
